@@ -71,6 +71,52 @@ func isServerErrorValue(p *kit.Prog, v ssa.Value) bool {
 	return false
 }
 
+// isServerErrorAt: the error value v, as it can be at block at (phi inputs that the facts there rule
+// out are ignored, e.g. the nil a helper returns on success when the caller is on its err != nil
+// branch), is a ServerError in every remaining case.
+func isServerErrorAt(p *kit.Prog, v ssa.Value, at *ssa.BasicBlock) bool {
+	if isServerErrorValue(p, v) {
+		return true
+	}
+	if _, isMI := v.(*ssa.MakeInterface); isMI {
+		return false
+	}
+	if r := kit.RootAt(v, at); r != v {
+		if _, stillPhi := r.(*ssa.Phi); !stillPhi {
+			// resolved to a single value: judge the unstripped definition if there is one
+			return isServerErrorValue(p, r) || isServerErrorValue(p, v)
+		}
+		v = r
+	}
+	ph, ok := v.(*ssa.Phi)
+	if !ok {
+		return isServerErrorValue(p, v)
+	}
+	idx := kit.FeasibleEdges(ph, kit.FactsAt(at))
+	if len(idx) == 0 {
+		return false
+	}
+	// a fact "this very phi is not nil" also rules out its nil inputs
+	notNil := false
+	for _, f := range kit.FactsAt(at) {
+		if cmp, ok := kit.CanonCmp(f.Cond, f.Pol); ok && cmp.Op == token.NEQ && kit.IsNilConst(cmp.Y) && kit.Root(cmp.X) == ssa.Value(ph) {
+			notNil = true
+		}
+	}
+	n := 0
+	for _, i := range idx {
+		e := ph.Edges[i]
+		if notNil && kit.IsNilConst(kit.Root(e)) {
+			continue
+		}
+		n++
+		if !isServerErrorAt(p, e, ph.Block().Preds[i]) {
+			return false
+		}
+	}
+	return n > 0
+}
+
 // completes reports whether instruction in completes call value v:
 // returnResult(v,...), a deferred literal that does so, or x.returnResults(...)
 // on v itself.
@@ -626,7 +672,7 @@ func readerErrorsAreFatal(c *kit.Ctx, recv *ssa.Function) {
 			return
 		}
 		ev := returnedError(r)
-		good := isServerErrorValue(p, ev)
+		good := isServerErrorAt(p, ev, r.Block())
 		c.Check(good, recv, "pre-claim-error", r.Pos(), "error before a call was claimed (read error, timeout, undecodable header, unknown id) is a ServerError: it fails the connection", "the reader returns a non-connection-level error (or nil) before any call was claimed: a read timeout or a broken stream does not fail the connection")
 	})
 }
